@@ -534,3 +534,14 @@ Section AbfSite.
   Definition abf_run3 (site_ok : bool) (sh : shape3 (T:=T)) (same : bool) (st0 : state3 (T:=T)) (l : list (ix3 * (T * T * T))) :=
     fst (fst (fold_left (abf_site3 site_ok sh same) l (st0, (0, 0, 0), true))).
 End AbfSite.
+
+(* ---------------------------------------------------------------------- colvarbias_abf::write_gradients_samples, local data
+   of a shared-ABF walker (and every PMF that is not kept up to date incrementally: czar_pmf, local_pmf):
+       local_pmf->set_div();  local_pmf->integrate(integrate_iterations, integrate_tol, err);
+   whatever the divergence array held before (after a restart it is the zero array of a fresh object) *)
+Definition write_pmf_batch2 {T} (O : NumOps T) (sc : smooth_cfg) (sm : bool) (sh : shape2 (T:=T)) (st : state2 (T:=T))
+    (itmax : nat) (tol : T) (data : ix2 -> T) (err0 : T) :=
+  let st' := set_div2 O sc sm sh st in (st', integrate2 O sh itmax tol (dv2 st') data err0).
+Definition write_pmf_batch3 {T} (O : NumOps T) (sc : smooth_cfg) (sm : bool) (sh : shape3 (T:=T)) (st : state3 (T:=T))
+    (itmax : nat) (tol : T) (data : ix3 -> T) (err0 : T) :=
+  let st' := set_div3 O sc sm sh st in (st', integrate3 O sh itmax tol (dv3 st') data err0).
